@@ -19,6 +19,16 @@ use crate::value::{CheapClone, JsString};
 impl Compiler {
     /// Compile a statement
     pub fn compile_statement_impl(&mut self, stmt: &Statement) -> Result<(), JsError> {
+        // An early error raised while compiling this statement without a position of its own
+        // (`break` outside a loop, an undefined label, ...) is located at the node being compiled
+        let result = self.compile_statement_unlocated(stmt);
+        result.map_err(|e| match self.builder.current_span() {
+            Some(span) => e.located_at(span),
+            None => e,
+        })
+    }
+
+    fn compile_statement_unlocated(&mut self, stmt: &Statement) -> Result<(), JsError> {
         match stmt {
             Statement::Expression(expr_stmt) => {
                 self.builder.set_span(expr_stmt.span);
